@@ -33,11 +33,12 @@ structure Key where
 structure BlockState where
   lastBlock2 : Option BlockValue      -- last_request_block2
   cachedResponse : Option Packet      -- cached_response
+  cachedSzx : Option Nat              -- cached_response_size_exponent (D21 fix)
   cachedPayload : Option Bytes        -- cached_request_payload
   deriving DecidableEq, Repr
 
 def BlockState.default : BlockState :=
-  { lastBlock2 := none, cachedResponse := none, cachedPayload := none }
+  { lastBlock2 := none, cachedResponse := none, cachedSzx := none, cachedPayload := none }
 
 structure Handler where
   maxSize : Nat                        -- config.max_total_message_size
@@ -208,17 +209,35 @@ def serveCached (req : Request) (rb2 : BlockValue) (cached : Packet) : Request Ã
         | .err _ => ({ req with response := some { resp1 with payload := chunk } }, internal)
         | .panic => (req1, .panic)
 
+/-- D21 fix: a follow-up naming a larger block size than the one negotiated for the cached response is
+served the same offset at the negotiated size (`BlockValue::new(num * ratio, more, 16 << szx)`; a block
+number that no longer fits 20 bits is a 4.00) -/
+def clampBlock (b2 : BlockValue) (cachedSzx : Option Nat) : HRes BlockValue :=
+  match cachedSzx with
+  | some s =>
+    if b2.szx > s then
+      match BlockValue.new (b2.num * 2 ^ (b2.szx - s)) b2.more (16 * 2 ^ s) with
+      | .ok b => .ok b
+      | .err _ => badRequest
+      | .panic => .panic
+    else .ok b2
+  | none => .ok b2
+
 /-- `maybe_handle_request_block2` -/
 def handleBlock2 (req : Request) (st : BlockState) : Request Ã— BlockState Ã— HRes Bool :=
   let mb2 := firstBlock req.message block2Num
   let st1 := { st with lastBlock2 := mb2 }
   match mb2, st1.cachedResponse with
   | some b2, some cached =>
-    match serveCached req b2 cached with
-    | (req', .ok more) =>
-      (req', (if more then st1 else { st1 with cachedResponse := none }), .ok true)
-    | (req', .herr c) => (req', st1, .herr c)
-    | (req', .panic) => (req', st1, .panic)
+    match clampBlock b2 st1.cachedSzx with
+    | .ok b2' =>
+      match serveCached req b2' cached with
+      | (req', .ok more) =>
+        (req', (if more then st1 else { st1 with cachedResponse := none, cachedSzx := none }), .ok true)
+      | (req', .herr c) => (req', st1, .herr c)
+      | (req', .panic) => (req', st1, .panic)
+    | .herr c => (req, st1, .herr c)
+    | .panic => (req, st1, .panic)
   | _, _ => (req, st1, .ok false)
 
 /-- the state-passing core of `intercept_request`: Block1 handling, then (if
@@ -250,7 +269,7 @@ def coreResponse (maxTotal : Nat) (req : Request) (st : BlockState) : Request Ã—
         | .ok none => (req, st, .ok false)
         | .ok (some rb2) =>
           match serveCached req rb2 resp with
-          | (req', .ok true) => (req', { st with cachedResponse := some resp }, .ok true)
+          | (req', .ok true) => (req', { st with cachedResponse := some resp, cachedSzx := some rb2.szx }, .ok true)
           | (req', r) => (req', st, r)
 
 /-- `BlockHandler::intercept_request` at time `now`: look up / create the state
